@@ -29,7 +29,7 @@ def run(pid, tier):
     rep = lib.Report('C05', tier)
     rep.cov['rule'] = ('cases = one unit CMD <list> against a handler signature: signatures of 0..S typed readers (11 kinds x mandatory/optional), lists of 0..L items from 18 item '
                        'texts (decimal, negative, real, with known / unknown suffix, #H, ON/OFF, choice names, unknown mnemonic, both string kinds, block, expression, exponent form) '
-                       'with 3 white-space variants around commas, plus lists ending in a malformed fragment; (S,L) = (1,2)+(2,1) quick, (2,2)+(1,3) thorough; enumerated by TLC, '
+                       'with 3 white-space variants around commas, plus lists ending in a malformed fragment; (S,L) = (1,2)+(2,1) quick, (2,2)+(1,3) thorough; plus array readers of 6 kinds (capacity 0..3, mandatory or not, a reader before / after) on the same lists; enumerated by TLC, '
                        'executed, validated by TLC; non-trivial = list length differs from the signature, white space before a comma, or a non-plain-decimal item')
     rep.assumptions += ['hook traces of the four unmodified CUnit programs (ASan+UBSan build) are validated by TVSuite; direct writes of test code to the status byte suspend the C11 clause until the next message',
                         'values of numeric items are compared only for plain decimal integers (C04 covers decoding)',
@@ -49,6 +49,16 @@ def run(pid, tier):
                 scen.append(s)
     for s in pc.gen(rep, 'C05m', dict(MaxUnits=3), nparts=5, timeout=900):
         scen.append(s)
+    # array readers SCPI_ParamArray<kind>: [reader] array(n, mandatory) [reader] against lists of items
+    aplans = [dict(MaxSig=1, MaxItems=2, KindIdx='{1, 4, 6}', ItemIdx='{1, 2, 3, 5, 7, 8, 13, 17, 20}')]
+    if tier == 'thorough':
+        aplans = [dict(MaxSig=2, MaxItems=2), dict(MaxSig=0, MaxItems=3, ItemIdx='{1, 2, 3, 5, 7, 8, 13, 17, 20}')]
+    for p in aplans:
+        for s in pc.gen(rep, 'C05a', p, nparts=12, timeout=1500):
+            k = json.dumps([s['scripts'], s['chunks']])
+            if k not in seen:
+                seen.add(k)
+                scen.append(s)
     obs = pc.execute(rep, scen, 'default', 'C05')
     pc.validate(rep, 'C05', scen, obs, 'C05-default', kindfn=kind)
     suite_traces.validate(rep, 'C05:')
